@@ -15,6 +15,7 @@
 //!
 
 #![recursion_limit = "1024"]
+#![allow(unexpected_cfgs)]
 pub mod data_type;
 pub mod setup;
 #[macro_use]
@@ -36,6 +37,15 @@ pub mod sql;
 pub mod synthetic_data;
 pub mod types;
 pub mod visitor;
+
+/// Verification hook (guard: `--cfg qrlew_verif`, off by default): a point where a compile can be
+/// preempted by the simulator's scheduler. Compiles to nothing without the guard.
+#[inline(always)]
+#[allow(dead_code)]
+pub(crate) fn verif_point(_tag: &'static str) {
+    #[cfg(qrlew_verif)]
+    shuttle::thread::sleep(std::time::Duration::ZERO);
+}
 
 pub use builder::{Ready, With, WithContext, WithIterator, WithoutContext};
 pub use data_type::{value::Value, DataType};
